@@ -68,6 +68,10 @@ CORE = ['s', 'a', 'c1', 'c3', 'c100']
 def c12_runs(tier):
     q = tier == 'quick'
     runs = []
+    # sanitizer legs are kept to a handful of executions: a hand-off between real threads costs ~1 s in these builds when the machine is loaded
+    runs.append(batch('i16', 'edge', 1, ['s', 'a'], waits=(1,), mode='asan', budget=150))
+    runs.append(McRun(BIN, 'pf_one', {'type': 'i8', 'n': 1, 'at': 'min', 'size': 5, 'mode': 's.a', 'wait': '1.0', 'g': 2, 'yield': 1}, bound=0, mode='tsan', budget=100))
+    runs.append(McRun(BIN, 'pf_one', {'type': 'i32', 'n': 2, 'size': 5, 'mode': 'a', 'wait': 1, 'yield': 1}, bound=0, mode='tsan', budget=100))
     # ---- (A) 8-bit types
     if q:
         runs.append(batch('i8', 'sz6', 2, ['s', 'a', 'c3']))
@@ -100,31 +104,27 @@ def c12_runs(tier):
         runs.append(batch('i32', 'edge', 2, ['s', 'a', 'c3'], cts=1, budget=60))
     # sizes at the limit of the size type: separate runs, so that their verdict does not hide the others
     for t in ('i64', 'u64'):
-        runs.append(batch(t, 'huge', 1, ['s'], per=40, budget=40))
-        runs.append(batch(t, 'huge', 1, ['a'], waits=(0,), per=40, budget=40))
-        runs.append(batch(t, 'huge', 1, ['a'], waits=(1,), per=40, budget=40))
+        runs.append(batch(t, 'huge', 1, ['s', 'a'], waits=(0,), per=40, budget=40))
+        runs.append(batch(t, 'huge', 1, ['a'] if q else ['s', 'a'], waits=(1,), per=40, budget=40))
     # ---- (B) schedules
     M4 = ['s', 'a', 'c1', 'c3']
     runs += ex(q, 'pf_one', 1, M4, 1, type='i32', size=[3, 5, 8], budget=200)
     if not q:
         runs += ex(q, 'pf_one', 2, ['s', 'a', 'c3'], 1, type='i32', size=[5, 8], budget=900)
     runs += ex(q, 'pf_one', 1, ['s', 'a', 'c3'], 2, type='i32', size=[5] if q else [5, 8])
-    runs += ex(q, 'pf_one', 1, ['s', 'a', 'c3'], 1, type='i8', at='max', size=[5, 8], g=[1, 3], budget=200)
+    if not q:
+        runs += ex(q, 'pf_one', 1, ['s', 'a', 'c3'], 1, type='i8', at='max', size=[5, 8], g=[1, 3], budget=200)
     runs.append(one('pf_one', 0, type='i32', n=[1, 2], size=[3, 5] if q else [3, 5, 8], mode=['s', 'a', 'c3'] if q else M4, wait=[1, 0], yield_=1, budget=150 if q else 400))
     runs.append(one('pf_one', 0, type='i32', n=2, size=[5] if q else [5, 8], mode=['s', 'a'], wait=[1, 0], yield_=1, settle=0, cts=1, budget=150))
     # the 64-bit ranges ending at the type's maximum (the stripe cursor has the index type's own width there)
     for t in ('i64', 'u64'):
-        runs += ex(q, 'pf_one', 1 if q else 2, ['a', 's', 'c3'], 1, type=t, at='max', off=[0, 1], size=[3, 4, 5, 8], budget=200 if q else 600)
+        runs += ex(q, 'pf_one', 1 if q else 2, ['a', 's', 'c3'], 1, waits=(1,) if q else (1, 0), type=t, at='max', off=[0, 1], size=[3, 4, 5, 8], budget=200 if q else 600)
         runs += ex(q, 'pf_one', 1, ['a'], 2, waits=(1,), type=t, at='max', size=[4, 5], budget=200)
     # sanitizer legs
-    # sanitizer legs are kept to a handful of executions: a hand-off between real threads costs ~1 s in these builds when the machine is loaded
-    runs.append(batch('i16', 'edge', 1, ['s', 'a'], waits=(1,), mode='asan', budget=150))
-    runs.append(McRun(BIN, 'pf_one', {'type': 'i8', 'n': 1, 'at': 'min', 'size': 5, 'mode': 's.a', 'wait': '1.0', 'g': 2, 'yield': 1}, bound=0, mode='tsan', budget=100))
-    runs.append(McRun(BIN, 'pf_one', {'type': 'i32', 'n': 2, 'size': 5, 'mode': 'a', 'wait': 1, 'yield': 1}, bound=0, mode='tsan', budget=100))
     return runs
 
 
-reg('C12', level='model_checking', runs=c12_runs, quick_budget_s=240, thorough_budget_s=1500,
+reg('C12', level='model_checking', runs=c12_runs, quick_budget_s=300, thorough_budget_s=1800,
     technique='the real parallel_for under the dmc scheduler: (A) exhaustive input enumeration on the default schedule with a chunk-recording body, '
               '(B) exhaustive schedule exploration of single calls up to a deviation bound',
     level_text='(A) int8_t/uint8_t: every (start,end) pair including empty and reversed ranges (thorough; quick: every start x sizes 0..6 plus every range '
@@ -169,7 +169,7 @@ def c13_runs(tier):
     runs += ex(q, 'pf_one', 1, ['s', 'a'], 1, type='i32', check=13, g=3, off=[0, 1, 2], size=[7, 10], budget=300)
     runs += ex(q, 'pf_one', 1, ['s', 'a'], 2, type='i32', check=13, g=2, off=[1] if q else [0, 1], size=[9])
     runs.append(one('pf_one', 0, type='i32', check=13, n=[1, 2], g=[2, 3], off=[0, 1, 2], size=[7, 10, 13], mode=['s', 'a'], wait=[1, 0], yield_=1, budget=200))
-    runs.append(McRun(BIN, 'pf_one', {'type': 'i32', 'check': 13, 'n': 2, 'g': 2, 'off': 0, 'size': 9, 'mode': 's', 'wait': 0, 'yield': 1}, bound=0, mode='tsan', budget=100))
+    runs.append(McRun(BIN, 'pf_one', {'type': 'i32', 'check': 13, 'n': 1, 'g': 2, 'off': '0.1', 'size': 9, 'mode': 's.a', 'wait': '1.0', 'yield': 1}, bound=0, mode='tsan', budget=100))
     runs.append(batch('i32', 'gran', 2, ['s', 'a'], gs=(2, 3), check=13, mode='asan', budget=100))
     return runs
 
@@ -281,7 +281,7 @@ def c48_runs(tier):
         runs.append(one('pf_one', 2, type='i32', check=48, n=2, mt=2, mode='s', wait=0, g=2, size=5, budget=900))
         runs.append(one('fe_one', 1, check=48, n=2, cont=['l', 'f'], cnt=4, mt=2, wait=[1, 0], api='n', budget=300))
         runs.append(one('pf_one', 0, type='i32', check=48, n=2, mt=[2, 3], mode=M, wait=[1, 0], g=[1, 2], size=7, yield_=1, settle=0, cts=1, budget=200))
-    runs.append(McRun(BIN, 'pf_one', {'type': 'i32', 'check': 48, 'n': 2, 'mt': 3, 'mode': 'a', 'wait': 1, 'size': 7, 'yield': 1}, bound=0, mode='tsan', budget=100))
+    runs.append(McRun(BIN, 'pf_one', {'type': 'i32', 'check': 48, 'n': 2, 'mt': 3, 'mode': 'a', 'wait': 1, 'size': 4, 'yield': 1}, bound=0, mode='tsan', budget=100))
     runs.append(McRun(BIN, 'fe_one', {'check': 48, 'n': 2, 'cont': 'l', 'cnt': 4, 'mt': 2, 'wait': 0, 'yield': 1}, bound=0, mode='asan', budget=100))
     return runs
 
